@@ -198,7 +198,11 @@ Definition path_del (p : path) : cres (nat * path) :=
     Done (part, mkpath base' (poff p) len' (if len' =? 0 then 0 else pfirst p)
                        (pbin p) (parr p) false (psep p) (passign p)).
 
-(* mpt_path_add(path, add): the first [add] post bytes become a new element *)
+(* mpt_path_add(path, add): the first [add] post bytes become a new element.  A path without
+   array (set from the caller's string) takes the [add] bytes that follow it in that string and is
+   copied with them into a new array, which is the path's from then on: HasArray is set AS PATCHED
+   by docs/C10_path_add_hasarray.diff (the unpatched code left the flag clear: the array was never
+   released and a second add read the bytes behind its used part) *)
 Definition path_add (p : path) (add : nat) : cres path :=
   (* base == NULL: an initialised or NULL-set path that never got an array *)
   if negb (parr p) && (length (pbase p) =? 0) then Fail MissingBuffer else
@@ -221,7 +225,7 @@ Definition path_add (p : path) (add : nat) : cres path :=
     let first := if plen p =? 0 then u8 add else pfirst p in
     let* data := setnth data (len + add) (N.of_nat add) in
     let* data := setnth data (len + add + 1) 0%N in
-    Done (mkpath data (poff p) (len + add + 2 - poff p) first (pbin p) (parr p) false (psep p) (passign p))
+    Done (mkpath data (poff p) (len + add + 2 - poff p) first (pbin p) true false (psep p) (passign p))
   else
     let* e := memchr (pbase p) len add (psep p) in
     match e with
@@ -236,7 +240,7 @@ Definition path_add (p : path) (add : nat) : cres path :=
         if len =? 0 then Done (data, if 255 <? add then 0 else add)
         else let* d := setnth data (len - 1) (psep p) in Done (d, pfirst p) in
       let* data := setnth data (len + add) (passign p) in
-      Done (mkpath data (poff p) (len + add + 1 - poff p) first (pbin p) (parr p) false (psep p) (passign p))
+      Done (mkpath data (poff p) (len + add + 1 - poff p) first (pbin p) true false (psep p) (passign p))
     end.
 
 (* post data is appended by the caller (mpt_path_addchar + mpt_path_valid per byte,
